@@ -68,10 +68,18 @@ def program(draw, tier="quick"):
     # edges, guided by the model so that most programs are valid
     unused = [(list(m["cov"]), list(m["con"])) for m in metas]
     edges = []
+    # one program in four is built edge by edge by a caller who catches the error of a refused edge and goes on
+    keep_going = not pair and draw(st.integers(0, 3)) == 0
     for _ in range(draw(st.integers(0, 6))):
         want_valid = draw(st.integers(0, 6)) != 0
         srcs = [i for i in range(n_nodes) if unused[i][0]]
         tgts = [i for i in range(n_nodes) if unused[i][1]]
+        if keep_going and draw(st.integers(0, 2)) == 0:
+            # an edge that must be refused although its source still has an unused covariant index: the target has no contravariant one left
+            full = [i for i in range(n_nodes) if not unused[i][1]]
+            if srcs and full:
+                edges.append([draw(st.sampled_from(srcs)), draw(st.sampled_from(full))])
+                continue
         if pair and len(edges) < 2 and unused[len(edges)][0] and unused[1 - len(edges)][1]:
             s, t = len(edges), 1 - len(edges)  # first 0 -> 1, then 1 -> 0
             unused[s][0].pop(0)
@@ -88,9 +96,9 @@ def program(draw, tier="quick"):
             t = draw(st.integers(0, n_nodes - 1))
         edges.append([s, t])
     form = draw(st.sampled_from(["ctor", "ctor", "add_edge", "add_node"]))
-    if not edges:
+    if not edges or keep_going:
         form = "add_node"  # a diagram without edges can only be built node by node
-    return {"nodes": nodes, "edges": edges, "form": form, "pair": pair}
+    return {"nodes": nodes, "edges": edges, "form": form, "pair": pair, "keep_going": keep_going}
 
 
 def node_meta(n):
@@ -241,6 +249,18 @@ def run_program(case):
     for o, m in zip(objs, metas):
         if sorted(o._covariant_indices) != m["cov"] or sorted(o._contravariant_indices) != m["con"]:
             raise HarnessError("node construction does not match meta")
+    keep_going = bool(case.get("keep_going")) and form == "add_node"
+    refused = []
+    if keep_going:
+        # the caller catches the TensorComputationError of a refused edge and goes on with the same diagram: a refused edge has no effect, the
+        # diagram denotes the sum of the accepted edges (all nodes are in the diagram already, so a refusal cannot leave a node behind)
+        accepted = []
+        for k, e in enumerate(edges):
+            if model(metas, accepted + [e], form)[0] == "ok":
+                accepted.append(e)
+            else:
+                refused.append(k)
+        all_edges, edges = edges, accepted
     mres = model(metas, edges, form)
     if not nodes or (form != "add_node" and not edges):
         raise Skip("empty diagram")
@@ -264,8 +284,19 @@ def run_program(case):
             if form == "add_node":
                 for o in objs:
                     d.add_node(o)
-            for s, t in edges:
-                d.add_edge(objs[s], objs[t])
+            if keep_going:
+                for k, (s, t) in enumerate(all_edges):
+                    try:
+                        d.add_edge(objs[s], objs[t])
+                    except TensorComputationError:
+                        if k not in refused:
+                            return [Fail("EXC:TensorComputationError", "diagram:valid-edge-refused-after-an-earlier-refusal", str((k, all_edges)))]
+                        continue
+                    if k in refused:
+                        return [Fail("NO_RAISE", "diagram:error-expected:edge-by-edge", str((k, all_edges)))]
+            else:
+                for s, t in edges:
+                    d.add_edge(objs[s], objs[t])
         res = d.calculate()
     except TensorComputationError as e:
         if mres[0] != "error":
@@ -329,6 +360,16 @@ def prog_nontrivial(c):
 def prog_labels(c):
     metas = [node_meta(n) for n in c["nodes"]]
     out = [c["form"], "predicted-error" if model(metas, c["edges"], c["form"])[0] == "error" else "valid"]
+    if c.get("keep_going") and c["form"] == "add_node":
+        acc, ref_then_ok = [], False
+        seen_refusal = False
+        for e in c["edges"]:
+            if model(metas, acc + [e], c["form"])[0] == "ok":
+                acc.append(e)
+                ref_then_ok = ref_then_ok or seen_refusal
+            else:
+                seen_refusal = True
+        out.append("goes-on-after-a-refused-edge" + (":accepted-edge-after-it" if ref_then_ok else ""))
     if any(s == t for s, t in c["edges"]):
         out.append("self-loop")
     if len({tuple(e) for e in c["edges"]}) < len(c["edges"]):
@@ -560,7 +601,7 @@ def run_epseps(case):
 LAWS = [
     Law("diagram_program", lambda tier: program(tier), run_program, prog_nontrivial, prog_labels, {"quick": 3000, "thorough": 60000},
         "generated diagram programs vs reference bookkeeping model", shard=4000,
-        mandatory=("self-loop", "repeated-edge", "collection-axes", "predicted-error", "valid", "narrow-integer-type-large-entries", "two-nodes-edges-in-both-directions", "collection-axes:later-node-has-two-more")),
+        mandatory=("self-loop", "repeated-edge", "collection-axes", "predicted-error", "valid", "narrow-integer-type-large-entries", "two-nodes-edges-in-both-directions", "collection-axes:later-node-has-two-more", "goes-on-after-a-refused-edge:accepted-edge-after-it")),
     Law("surface_forms", lambda tier: surface(tier), run_surface, lambda c: True, lambda c: [c["form"]], {"quick": 800, "thorough": 10000},
         "a*b, b.__rmul__(a), a**k, a.tensor_product(b), a*ndarray as their defining programs", shard=4000),
     Law("epsilon_table", None, run_eps, enumerate=eps_cases, exhaustive=lambda tier: {"name": "all entries of LeviCivitaTensor(n), n=1..%d, both variances" % (7 if tier == "thorough" else 6), "size": sum(n**n for n in range(1, 8 if tier == "thorough" else 7)) * 2, "exhaustive": True},
